@@ -382,6 +382,21 @@ func depadVariants(bz []byte) [][]byte {
 		cur = depadAt(cur, pick)
 		out = append(out, cur)
 	}
+	if sites := padSites(bz); len(sites) >= 3 && len(sites) <= 10 {
+		// every pair / triple of sites (some `8x 00` pairs may be payload bytes, not padding)
+		for a := 0; a < len(sites); a++ {
+			for b := a + 1; b < len(sites); b++ {
+				if sites[b] > sites[a]+1 {
+					out = append(out, depadAt(bz, []int{sites[a], sites[b]}))
+					for c := b + 1; c < len(sites); c++ {
+						if sites[c] > sites[b]+1 {
+							out = append(out, depadAt(bz, []int{sites[a], sites[b], sites[c]}))
+						}
+					}
+				}
+			}
+		}
+	}
 	for _, i := range padSites(bz) {
 		one := depadAt(bz, []int{i})
 		out = append(out, one)
